@@ -316,4 +316,4 @@ MANIFEST = {
     'design_ref': 'DESIGN.md 3/C15',
 }
 MANIFEST['note'] += (' Also decided here (necessary conditions shared between properties or added after the independent '
-                     'change rounds, DESIGN.md 8.7): policy message builder and mirror layouts (from C14), close() flushes first, every ACQUIRE handed over, configuration not mutated, registration of a rekey successor (from C16).')
+                     'change rounds, DESIGN.md 8.7): policy message builder and mirror layouts (from C14), close() flushes first, every ACQUIRE handed over, configuration not mutated, registration of a rekey successor (from C16). Rounds 7-8: get_network / get_port semantics (from C12).')
